@@ -116,7 +116,7 @@ namespace Registry
 structure Inv (r : Registry) : Prop where
   paths_nodup : r.paths.Nodup
   quals_nodup : r.quals.Nodup
-  no_self : r.inPackage = true → r.dstPkgPath ∉ r.paths
+  no_self : ∀ p ∈ r.imports, r.isSelf p.name p.path = false
 
 theorem find?_some {r : Registry} {path : String} {p : Pkg} (h : r.find? path = some p) :
     p ∈ r.imports ∧ p.path = path := by
@@ -185,13 +185,17 @@ theorem addImport_inv {r : Registry} (h : r.Inv) (name path : String) : (r.addIm
         rw [hq]
         intro hab; subst hab
         exact hnm ha
-      · intro hin
-        have hpath : (mkPkg r.quals name path).path = path := rfl
-        simp only [paths, List.map_append, List.map_cons, List.map_nil, List.mem_append,
-          List.mem_singleton, not_or, hpath]
-        refine ⟨h.no_self hin, ?_⟩
-        intro heq
-        exact hcond ⟨heq.symm, hin⟩
+      · intro p hp
+        have hself : ∀ n q, isSelf { r with imports := r.imports ++ [mkPkg r.quals name path] } n q = r.isSelf n q :=
+          fun _ _ => rfl
+        rw [hself]
+        simp only [List.mem_append, List.mem_singleton] at hp
+        rcases hp with hp | rfl
+        · exact h.no_self p hp
+        · have h1 : (mkPkg r.quals name path).name = name := rfl
+          have h2 : (mkPkg r.quals name path).path = path := rfl
+          rw [h1, h2]
+          simpa using hcond
 
 /-- Entries are never modified or removed. -/
 theorem addImport_find?_stable {r : Registry} {path : String} {p : Pkg} (h : r.find? path = some p)
@@ -206,7 +210,7 @@ theorem addImport_find?_stable {r : Registry} {path : String} {p : Pkg} (h : r.f
       simp [h]
 
 theorem addImport_result {r : Registry} (name path : String) :
-    (r.addImport name path).2 = none ∧ (path = r.dstPkgPath ∧ r.inPackage = true) ∨
+    (r.addImport name path).2 = none ∧ r.isSelf name path = true ∨
     ∃ p, (r.addImport name path).2 = some p ∧ (r.addImport name path).1.find? path = some p := by
   unfold addImport
   split
@@ -221,14 +225,15 @@ theorem addImport_result {r : Registry} (name path : String) :
       simp [hnone, mkPkg]
 
 theorem addImport_cfg (r : Registry) (n p : String) :
-    (r.addImport n p).1.dstPkgPath = r.dstPkgPath ∧ (r.addImport n p).1.inPackage = r.inPackage := by
+    (r.addImport n p).1.dstPkgPath = r.dstPkgPath ∧ (r.addImport n p).1.inPackage = r.inPackage ∧
+    (r.addImport n p).1.dstPkgName = r.dstPkgName := by
   unfold addImport
   split
-  · exact ⟨rfl, rfl⟩
-  · split <;> exact ⟨rfl, rfl⟩
+  · exact ⟨rfl, rfl, rfl⟩
+  · split <;> exact ⟨rfl, rfl, rfl⟩
 
 theorem addImport_some_cond {r : Registry} {n path : String} {p : Pkg}
-    (h : (r.addImport n path).2 = some p) : ¬(path = r.dstPkgPath ∧ r.inPackage = true) := by
+    (h : (r.addImport n path).2 = some p) : ¬(r.isSelf n path = true) := by
   intro hc
   unfold addImport at h
   simp [hc] at h
@@ -243,14 +248,15 @@ theorem addImports_inv {r : Registry} (h : r.Inv) (reqs : List (String × String
   | cons x xs ih => obtain ⟨n, p⟩ := x; exact ih (addImport_inv h n p)
 
 theorem addImports_cfg (r : Registry) (reqs : List (String × String)) :
-    (r.addImports reqs).dstPkgPath = r.dstPkgPath ∧ (r.addImports reqs).inPackage = r.inPackage := by
+    (r.addImports reqs).dstPkgPath = r.dstPkgPath ∧ (r.addImports reqs).inPackage = r.inPackage ∧
+    (r.addImports reqs).dstPkgName = r.dstPkgName := by
   induction reqs generalizing r with
-  | nil => exact ⟨rfl, rfl⟩
+  | nil => exact ⟨rfl, rfl, rfl⟩
   | cons x xs ih =>
     obtain ⟨n, p⟩ := x
     have h1 := ih (r.addImport n p).1
     have h2 := addImport_cfg r n p
-    exact ⟨h1.1.trans h2.1, h1.2.trans h2.2⟩
+    exact ⟨h1.1.trans h2.1, h1.2.1.trans h2.2.1, h1.2.2.trans h2.2.2⟩
 
 theorem addImports_find?_stable {r : Registry} {path : String} {p : Pkg} (h : r.find? path = some p)
     (reqs : List (String × String)) : (r.addImports reqs).find? path = some p := by
